@@ -58,7 +58,6 @@ class Ctx:
         self.params = {}
         self.viol = []      # (key, detail)
         self.obs = {"tool_runs": 0, "gr_files_decoded": 0, "edges_compared": 0, "text_lines_in": 0, "text_lines_out": 0}
-        self.cls = ""       # config class appended to every key of this case (e.g. v2-odd)
         self.inconclusive = None
         self.sig = ""
         self.nontrivial = False
@@ -69,13 +68,7 @@ class Ctx:
     def p(self, name):
         return os.path.join(self.dir, name)
 
-    # conversions whose output is a FileGraph copy / fromGraph image saved with toFile: with a version-2 input of odd
-    # edge count and edge data they all fail for the one library reason (fromArrays vs rawBlockSize), so one key
-    COPY_MODES = ("gr2sorteddstgr", "gr2sortedweightgr", "gr2cgr", "gr2randomweightgr", "gr2biggr", "gr2totem")
-
     def key(self, tool, mode, kind):
-        if self.cls == "v2-odd" and tool == "graph-convert" and mode in self.COPY_MODES:
-            return "C12:graph-convert:copy+toFile:wrong-output:v2-odd"
         if tool == "dist-graph-convert":
             # optional MPI tool: coarse kinds (crash / wrong-output) per conversion and partitioning regime
             coarse = "crash" if kind.startswith("tool-failed") else "wrong-output"
@@ -259,36 +252,10 @@ def max_nodes(ctx):
 
 
 def write_input_gr(ctx, g, name="in.gr"):
-    """write the binary input of a tool run. Returns list of (path, convention name): two files when the version-2
-    padding question applies (odd edge count + edge data)."""
-    if g.version == 2 and g.width and g.m() % 2:
-        ctx.cls = "v2-odd"
-        p0, p1 = ctx.p("n_" + name), ctx.p("p_" + name)
-        G.write_gr(p1, g, 2, True)
-        G.write_gr(p0, g, 2, False)
-        return [(p1, "8-byte-pad"), (p0, "no-pad")]
+    """write the binary input of a tool run (version 2 in its one layout: no pad word)"""
     p = ctx.p(name)
     G.write_gr(p, g, g.version)
-    return [(p, "-")]
-
-
-def both_conventions(ctx, inputs, fn):
-    """run fn(path) for each padding convention of the input; the case passes if one convention passes
-    (the violations of the first, i.e. the convention FileGraph::fromFile reads, are reported otherwise)"""
-    saved = None
-    for path, conv in inputs:
-        before = list(ctx.viol)
-        fired = set(ctx.fired)
-        ctx.viol, ctx.fired = [], set()
-        fn(path)
-        mine, ctx.viol, ctx.fired = ctx.viol, before, fired
-        if not mine:
-            ctx.params["v2_convention_accepted"] = conv
-            return
-        if saved is None:
-            saved = [(k, dict(d, input_padding=conv) if isinstance(d, dict) else d) for k, d in mine]
-    for k, d in saved:
-        ctx.violation(k, d)
+    return p
 
 
 # ---------------------------------------------------------------------------------------------- family: text -> gr
@@ -522,18 +489,11 @@ def fam_gr2text(ctx):
                   "values": vmode, "version": version}
     ctx.sig = "gr2text|%s|%s|%s|v%d|%s" % (mode, et, g.kind, version, vmode)
     ctx.nontrivial = g.m() >= 2
-    inputs = write_input_gr(ctx, g)
-    state = {}
-
-    def go(inp):
-        out = ctx.p("out.txt")
-        if os.path.exists(out):
-            os.unlink(out)
-        if not ctx.run("graph-convert", ["-" + mode, "-edgeType=" + et, inp, out], mode):
-            return
-        state["res"] = check_text_output(ctx, mode, et, g, out)
-    both_conventions(ctx, inputs, go)
-    res = state.get("res")
+    inp = write_input_gr(ctx, g)
+    out = ctx.p("out.txt")
+    if not ctx.run("graph-convert", ["-" + mode, "-edgeType=" + et, inp, out], mode):
+        return
+    res = check_text_output(ctx, mode, et, g, out)
     # round trip back to binary where a reverse conversion exists and the text carried the weights exactly
     back = {"gr2edgelist": "edgelist2gr", "gr2dimacs": "dimacs2gr", "gr2mtx": "mtx2gr", "gr2pbbs": "pbbs2gr"}.get(mode)
     if res != "ok" or not back or ctx.viol:
@@ -758,19 +718,11 @@ def fam_gr2gr(ctx):
                   "shape": g.kind, "values": vmode, "version": version, "options": opt}
     ctx.sig = "gr2gr|%s|%s|%s|v%d|%s" % (mode, et, g.kind, version, "in-void" if in_et != et else vmode)
     ctx.nontrivial = g.m() >= 2
-    inputs = write_input_gr(ctx, g)
-    if version == 2 and g.m() % 2 and et != "void" and mode == "gr2randomweightgr":
-        ctx.cls = "v2-odd"  # the OUTPUT has edge data even when the input has none
-
-    def go(inp):
-        out = ctx.p("out.gr")
-        for f in os.listdir(ctx.dir):
-            if f.startswith("out.gr") or f == "perm.txt":
-                os.unlink(ctx.p(f))
-        if not ctx.run("graph-convert", ["-" + mode, "-edgeType=" + et] + args + [inp, out], mode):
-            return
-        check_gr2gr(ctx, mode, et, in_et, g, out, opt)
-    both_conventions(ctx, inputs, go)
+    inp = write_input_gr(ctx, g)
+    out = ctx.p("out.gr")
+    if not ctx.run("graph-convert", ["-" + mode, "-edgeType=" + et] + args + [inp, out], mode):
+        return
+    check_gr2gr(ctx, mode, et, in_et, g, out, opt)
 
 
 def check_gr2gr(ctx, mode, et, in_et, g, out, opt):
@@ -1374,17 +1326,15 @@ SPEC = dict(
                "reached through reference-written files, FileGraph copy and fromGraph.",
     rule="case = one component (writer / copy / fromGraph / one reader / one tool conversion) on one generated graph or text file; "
          "non-trivial iff the graph has >=2 edges (library side also >=2 nodes); distinct by (component or conversion, format version, "
-         "edge-data width or type, edge-count parity, graph shape, size class, component variant / text features / value class, "
-         "for version 2 with odd edge count and edge data also which padding convention the reader accepted)",
+         "edge-data width or type, edge-count parity, graph shape, size class, component variant / text features / value class)",
     require={"edges_compared": 50000, "files_decoded_by_reference": 300, "files_written_by_library": 300, "library_reads": 1000,
              "sub_ranges_read": 2000, "oc_segments_loaded": 500, "tool_runs": 500, "gr_files_decoded": 300, "v2_cases": 100,
-             "odd_edge_count_with_data_cases": 200},
+             "odd_edge_count_with_data_cases": 200, "v2_odd_edge_count_with_data_cases": 50},
     assumptions=[
         "equality of graphs = same node count and, per node, the same multiset of (destination, edge-data bytes); the order of a node's "
         "edges is recorded but not demanded (except where an option documents a sort)",
-        "version 2, odd edge count, edge data: the layout comment allows no pad word after 64-bit destinations while some readers skip "
-        "one; files are written under both conventions and a reader/tool is accepted if it is right on one of them; separately the "
-        "library's own readers must agree on one convention, and library-written files must read back unchanged",
+        "version 2 has one layout: no pad word after the 64-bit destinations; reference inputs are written that way, and a "
+        "library- or tool-written version-2 file whose length reveals a pad word is a violation",
         "sub-range reads use node-aligned edge ranges (the edge range of [a,b) is exactly the edges of those nodes), as produced by "
         "divideByNode and required by BufferedGraph::loadPartialGraph's documentation",
         "OCFileGraph, OCImmutableEdgeGraph, BufferedGraph, graph-remap and gr2pbbs are documented as version-1 only and get version-1 files",
